@@ -151,7 +151,17 @@ func breakLayer(t *tape.Tape, l Layer) (Layer, string) {
 }
 
 func c08Buckets(r *Run, t *tape.Tape, sp Spelling, maxExtra int) {
-	l := genLayer(t, LayerOpts{MaxExtra: maxExtra, Steer: true})
+	lo := LayerOpts{MaxExtra: maxExtra, Steer: true}
+	if t.Bool(1, 4, "c08.otheralg") {
+		// any number is a legal alg value for the encoders (applications
+		// bring their own signers for RS256 and for private-use numbers)
+		a := otherAlgs[t.Choose(len(otherAlgs), "c08.otheralg.v")]
+		lo.Alg = &a
+		if t.Bool(1, 2, "c08.otheralg.alone") {
+			lo.MaxExtra, lo.Steer, lo.NoCrit = 0, false, true
+		}
+	}
+	l := genLayer(t, lo)
 	broken := ""
 	if t.Bool(1, 3, "c08.break") {
 		l, broken = breakLayer(t, l)
